@@ -1432,7 +1432,9 @@ impl<Word, Buf: SafeBuf<Word> + AsMut<[Word]>> BoundedWriteWords<Word>
 {
     #[inline(always)]
     fn space_left(&self) -> usize {
-        self.0.buf.as_ref().len()
+        // A `Reverse<Cursor>` writes towards the beginning of the buffer (each `write`
+        // decrements `pos` and fails once `pos == 0`), so exactly `pos` writes can succeed.
+        self.0.pos
     }
 }
 
